@@ -702,3 +702,72 @@ def gap_window_lemma(ctx, adt="reservoirsampling::ReservoirSampling", bound="4k"
                     continue
                 return False, "%s stores %s to i" % (m.name, fmt(v)[:80])
     return True, "skip_until <= i or i >= %s is inductive (constructors start at 0; drawn gaps are stored only when i >= %s; i only grows or is reset together with skip_until)" % (bound, bound)
+
+
+_BASE_FNS = []
+NEW_WRITERS_NOTE = (" R%s-new-writers (who-may-write over entry points): a public or trait-impl method with a self receiver that the reviewed tree "
+                    "does not have must change the structure's protected state (every field except the RNG) only inside calls to reviewed "
+                    "public operations of the same structure; a direct store, a call into a private helper, or a `&mut` handed to the caller "
+                    "is reported as an unreviewed writer. Expected on the pinned tree: zero new entry points.")
+
+
+def _baseline_fns():
+    if not _BASE_FNS:
+        from ..inline import load_baseline
+        b = load_baseline()
+        _BASE_FNS.append(set(b["fns"]) if b else None)
+    return _BASE_FNS[0]
+
+
+def check_new_writers(ctx, rule, adts, free=("rng",)):
+    """Who-may-write rule over public entry points.  The rule modules review the functions of the pinned tree (by name, after renames
+    are undone and new private helpers are expanded into their callers).  A public method or trait-impl method of a structure that
+    the reviewed tree does not have is a new entry point: nothing in the module has looked at it.  It is accepted when every write it
+    makes to the structure's protected state happens inside a call to a reviewed PUBLIC operation of the same structure (then any use
+    of it is a history of reviewed operations, which is what the properties quantify over), or touches only `free` fields (the RNG:
+    the properties hold for every outcome of the random choices).  Any other write — a direct store, a call into a private helper
+    whose protocol only its reviewed callers follow, a `&mut` handed out to the caller — is reported: an unreviewed writer of
+    protected state.  Expected count on the pinned tree: zero new entry points."""
+    base = _baseline_fns()
+    if base is None:
+        ctx.fail("anchor-missing", rule + ":baseline", None, "engine/pdsa/baseline.json is missing: cannot tell reviewed entry points from new ones")
+        return
+    prog = ctx.prog
+    n_reviewed = n_new = 0
+    for adt in adts:
+        ms = [m for m in methods_of(prog, adt) if has_self_receiver(m) and not m.impl_derived and "{closure" not in m.key]
+        reviewed_pub = {m.key for m in ms if m.key in base and (m.pub or m.impl_trait)}
+        n_reviewed += len(reviewed_pub)
+        for m in sorted(ms, key=lambda f: f.key):
+            if m.key in base or not (m.pub or m.impl_trait):
+                continue
+            n_new += 1
+            ctx.analysed_fns.add(m.key)
+            bad = {}
+            for w in all_writes(ctx, m):
+                if w["root"] != SELF or not w["path"]:
+                    continue
+                fld = w["path"][0]
+                if fld in free:
+                    continue
+                via = w.get("via") or ()
+                if via and via[0] in reviewed_pub:
+                    continue
+                if w["how"] == "borrow":
+                    # a borrow is a write only if the reference leaves the method
+                    if not ("&mut" in (m.ret_ty or "") or "IterMut" in (m.ret_ty or "") or "Drain" in (m.ret_ty or "")):
+                        continue
+                how = ("hands out a mutable borrow of" if w["how"] == "borrow" else
+                       "calls %s on" % w.get("name") if w["how"] == "call" else "stores to")
+                inner = (" (inside %s, which is not a public operation)" % via[0].rsplit("::", 1)[-1]) if via else ""
+                bad.setdefault(fld, "%s `%s`%s" % (how, fld, inner))
+            rt = m.ret_ty or ""
+            if not bad and m.locals and "&mut" in str(m.local_ty(1)) and any(x in rt for x in ("&mut ", "IterMut", "Drain", "RefMut")):
+                bad["<return>"] = "returns `%s`: mutable access to the structure's interior handed to the caller" % rt[:80]
+            short = adt.rsplit("::", 1)[-1]
+            ctx.check(not bad, rule, "%s::%s" % (adt, m.name), m,
+                      "new entry point %s::%s changes protected state only through reviewed public operations" % (short, m.name),
+                      "%s::%s is a new public entry point that no rule has reviewed and it writes protected state itself: %s — only the reviewed "
+                      "operations (and compositions of their public calls) are known to keep this property"
+                      % (short, m.name, "; ".join(bad[k] for k in sorted(bad))[:300]))
+    ctx.ok(rule, "entry-point-census", "%d reviewed public mutators/readers with a self receiver, %d new entry point(s) examined" % (n_reviewed, n_new), nontrivial=False)
